@@ -460,7 +460,8 @@ class History:
         if t['k'] == 'array' and self.fixed_size_violation(t, v):
             pass
         payload = struct.pack('<IbI', eid, 1 if is_slice else 0, len(payload_body)) + payload_body
-        notify = copy.deepcopy(v) if len(data) > 0 else None
+        # a dict field assignment always notifies; list operations only when elements were sent
+        notify = copy.deepcopy(v) if (op == 'dict-set' or len(data) > 0) else None
         self.emit('nested', payload, id=eid, path=path, op=op, body_len=len(payload_body), notify=notify,
                   etype=self.views[ent['type']]['name'])
         return True
